@@ -448,9 +448,11 @@ public:
     TCB_SPAN_CONSTEXPR11 span<element_type, dynamic_extent>
     subspan(index_type offset, index_type count = static_cast<index_type>(dynamic_extent)) const
     {
+        // count <= size() - offset rather than offset + count <= size(): the sum wraps
+        // for large counts (index_type is unsigned)
         TCB_SPAN_EXPECT((offset >= 0 && offset <= size()) &&
                         (count == dynamic_extent ||
-                         (count >= 0 && offset + count <= size())));
+                         (count >= 0 && count <= size() - offset)));
         return {data() + offset,
                 count == dynamic_extent ? size() - offset : count};
     }
